@@ -7,7 +7,7 @@
 (*           po: Seq([id, pur, amt, den, st, rt, ct, dec: Seq([s, d, t])]),  *)
 (*           rq, aq: ascending Seq(id), wl: [acct -> BOOLEAN], wlExtra,      *)
 (*           locked, spent: [acct -> Nat], totLocked, totLockedDen, totSpent]*)
-EXTENDS Bank
+EXTENDS Bank, EntArith
 
 PoIdx(st, id) == id - st.ent.start + 1
 PoExists(st, id) == id >= st.ent.start /\ id < st.ent.next
@@ -84,7 +84,8 @@ TallyOne(id, st) ==
            P   == st.ent.p
        IN IF NowSec(st) - o.rt >= P.limit /\ acc < P.min THEN Close(st, id, "rejected")
           ELSE IF rej > Len(P.signers) - P.min THEN Close(st, id, "rejected")
-          ELSE IF acc >= P.min THEN [Close(st, id, "accepted") EXCEPT !.ent.aq = Append(@, id)]
+          \* st.aux.approved (observation variable): the orders the RULES accepted - the only ones that may ever mint (C02)
+          ELSE IF acc >= P.min THEN [Close(st, id, "accepted") EXCEPT !.ent.aq = Append(@, id), !.aux.approved = @ \cup {id}]
           ELSE st
 Tally(st) == FoldL(TallyOne, st, st.ent.rq)
 
@@ -97,18 +98,14 @@ UnlockForFees(st, payer, fee) ==
   LET den    == st.ent.p.denom
       locked == st.ent.locked[payer]
       f      == FeeOf(fee, den)
+      take   == UnlockTake(locked, Spendable(st, payer, den), f)      \* EntArith: f, all of `locked`, or nothing
   IN IF f = 0 THEN Panic(st)                           \* Find() miss -> nil amount -> panic, tx refused
-     ELSE IF locked >= f
-     THEN \* branch 1: undelegate the WHOLE fee coin set from the module account
-          IF \E d \in DOMAIN fee : d # den /\ fee[d] > BalOf(st, "ent", d) THEN Fail(st)
-          ELSE Ok([TrackUndelegation(Move(st, "ent", payer, den, f), payer, den, f)
-                     EXCEPT !.ent.locked[payer] = @ - f, !.ent.totLocked = Max(@ - f, 0),
-                            !.ent.spent[payer] = @ + f, !.ent.totSpent = @ + f])
-     ELSE IF Spendable(st, payer, den) + locked >= f
-     THEN Ok([TrackUndelegation(Move(st, "ent", payer, den, locked), payer, den, locked)
-                     EXCEPT !.ent.locked[payer] = 0, !.ent.totLocked = Max(@ - locked, 0),
-                            !.ent.spent[payer] = @ + locked, !.ent.totSpent = @ + locked])
-     ELSE Ok(st)
+     \* when the locked coins cover the fee the code undelegates the WHOLE fee coin set from the module account
+     ELSE IF locked >= f /\ \E d \in DOMAIN fee : d # den /\ fee[d] > BalOf(st, "ent", d) THEN Fail(st)
+     ELSE IF take = 0 THEN Ok(st)
+     ELSE Ok([TrackUndelegation(Move(st, "ent", payer, den, take), payer, den, take)
+                EXCEPT !.ent.locked[payer] = @ - take, !.ent.totLocked = Floor0(@ - take),
+                       !.ent.spent[payer] = @ + take, !.ent.totSpent = @ + take])
 
 ------------------------------------------------------------------------------
 (* Parameter validity as the property states it, over the integers *)
